@@ -8,6 +8,7 @@ let run_closecode (f : string array) : string =
   let c = n_of_string f.(2) in
   let cc = close_of_u16 c in
   close_code_name cc ^ ":" ^ string_of_n (close_to_u16 cc) ^ ":" ^ (if close_allowed cc then "1" else "0")
+  ^ ":" ^ string_of_n (close_to_u16 cc) ^ ":" ^ string_of_n (close_to_u16 cc)
 
 let run_header_parse (f : string array) : string =
   match header_parse (bytes_of_hex f.(2)) with
